@@ -760,6 +760,10 @@ func main() {
 		b.WriteString(leanList("fbb_"+c, fb.strConst(c)))
 	}
 	fmt.Fprintf(&b, "def ardopPolynomial : Nat := %d\n", ar.constVal("polynomial"))
+	mb := loadPkg(filepath.Join(repo, "mailbox"))
+	for _, c := range []string{"DIR_INBOX", "DIR_OUTBOX", "DIR_SENT", "DIR_ARCHIVE", "Ext"} {
+		b.WriteString(leanList("mailbox"+c, mb.strConst(c)))
+	}
 	b.WriteString(ardopParseFacts(ar))
 	b.WriteString("\nend Wl2k.Gen\n")
 	if err := os.WriteFile(filepath.Join(out, "Tables.lean"), []byte(b.String()), 0o644); err != nil {
